@@ -101,7 +101,7 @@ def view(fx, path, depth=9, extra_stop=(), threaded=True):
         for _round in range(3):
             if not inline.resolve_closures(fx, v):
                 break
-            v = inline.inlined(fx, v, 4, stop=tuple(sorted(st)))
+            v = inline.inlined(fx, v, depth, stop=tuple(sorted(st)))
         inline.resolve_closures(fx, v)
         _cache[k] = thread.threaded(v) if threaded else v
     return _cache[k]
